@@ -21,6 +21,8 @@ pub struct FileState { pub bytes: Seq<u8>, pub cursor: int }
 
 impl File {
     pub uninterp spec fn view(&self) -> FileState;
+    // a handle on which positioning and in-range reads do not fail (no I/O error); no call changes it
+    pub uninterp spec fn reliable(&self) -> bool;
 
     #[verifier::external_body]
     pub fn seek(&mut self, pos: SeekFrom) -> (r: Result<u64, IoError>)
@@ -32,6 +34,12 @@ impl File {
                 SeekFrom::Current(d) => final(self)@.cursor == old(self)@.cursor + d,
             }),
             r is Err ==> final(self)@ == old(self)@,
+            final(self).reliable() == old(self).reliable(),
+            old(self).reliable() ==> (r is Ok <==> (match pos {
+                SeekFrom::Start(p) => true,
+                SeekFrom::End(d) => old(self)@.bytes.len() + d >= 0,
+                SeekFrom::Current(d) => old(self)@.cursor + d >= 0,
+            })),
     { unimplemented!() }
 
     #[verifier::external_body]
@@ -39,11 +47,13 @@ impl File {
         ensures final(self)@.bytes == old(self)@.bytes,
             r is Ok ==> final(self)@.cursor == 0,
             r is Err ==> final(self)@ == old(self)@,
+            final(self).reliable() == old(self).reliable(), old(self).reliable() ==> r is Ok,
     { unimplemented!() }
 
     #[verifier::external_body]
     pub fn stream_position(&mut self) -> (r: Result<u64, IoError>)
         ensures final(self)@ == old(self)@, r is Ok ==> r->Ok_0 as int == old(self)@.cursor,
+            final(self).reliable() == old(self).reliable(), (old(self).reliable() && 0 <= old(self)@.cursor <= u64::MAX) ==> r is Ok,
     { unimplemented!() }
 
     #[verifier::external_body]
@@ -54,6 +64,7 @@ impl File {
                 && final(self)@.cursor == old(self)@.cursor + buf@.len(),
             // failed or torn write: some prefix of buf was written
             r is Err ==> exists|k: int| 0 <= k <= buf@.len() && final(self)@.bytes == write_at(old(self)@.bytes, old(self)@.cursor, buf@.subrange(0, k)),
+            final(self).reliable() == old(self).reliable(),
     { unimplemented!() }
 
     #[verifier::external_body]
@@ -64,6 +75,9 @@ impl File {
             r is Ok ==> old(self)@.cursor >= 0 && old(self)@.cursor + old(buf)@.len() <= old(self)@.bytes.len()
                 && final(buf)@ == old(self)@.bytes.subrange(old(self)@.cursor, old(self)@.cursor + old(buf)@.len())
                 && final(self)@.cursor == old(self)@.cursor + old(buf)@.len(),
+            final(self).reliable() == old(self).reliable(),
+            (old(self).reliable() && old(self)@.cursor >= 0 && old(self)@.cursor + old(buf)@.len() <= old(self)@.bytes.len()) ==> r is Ok,
+            r is Err ==> final(self)@.cursor >= old(self)@.cursor,
     { unimplemented!() }
 
     #[verifier::external_body]
@@ -72,5 +86,38 @@ impl File {
             r is Ok ==> final(self)@.bytes == set_len_spec(old(self)@.bytes, size as int),
             r is Err ==> final(self)@.bytes == old(self)@.bytes,
             final(self)@.cursor == old(self)@.cursor,
+            final(self).reliable() == old(self).reliable(),
     { unimplemented!() }
 }
+
+// ---- opening a file by name: the content found on disk (T1).  Only the truncate flag of the builder matters here.
+pub uninterp spec fn disk(name: Seq<char>) -> Seq<u8>;
+
+#[verifier::external_body]
+pub struct OpenOptions { x: u8 }
+impl OpenOptions {
+    pub uninterp spec fn truncates(&self) -> bool;
+    #[verifier::external_body]
+    pub fn new() -> (r: OpenOptions) ensures !r.truncates() { unimplemented!() }
+    #[verifier::external_body]
+    pub fn read(&mut self, read: bool) -> (r: &mut OpenOptions)
+        ensures (*r).truncates() == old(self).truncates(), final(self).truncates() == (*final(r)).truncates() { unimplemented!() }
+    #[verifier::external_body]
+    pub fn write(&mut self, write: bool) -> (r: &mut OpenOptions)
+        ensures (*r).truncates() == old(self).truncates(), final(self).truncates() == (*final(r)).truncates() { unimplemented!() }
+    #[verifier::external_body]
+    pub fn create(&mut self, create: bool) -> (r: &mut OpenOptions)
+        ensures (*r).truncates() == old(self).truncates(), final(self).truncates() == (*final(r)).truncates() { unimplemented!() }
+    #[verifier::external_body]
+    pub fn truncate(&mut self, truncate: bool) -> (r: &mut OpenOptions)
+        ensures (*r).truncates() == truncate, final(self).truncates() == (*final(r)).truncates() { unimplemented!() }
+    #[verifier::external_body]
+    pub fn open<P: PathLike>(&self, path: P) -> (r: Result<File, IoError>)
+        ensures r is Ok ==> r->Ok_0@.cursor == 0 && r->Ok_0@.bytes == (if self.truncates() { Seq::<u8>::empty() } else { disk(path.chars()) }),
+    { unimplemented!() }
+}
+// what `AsRef<Path>` is used for here: a file name given as &str or String
+pub trait PathLike { spec fn chars(&self) -> Seq<char>; }
+impl PathLike for &str { open spec fn chars(&self) -> Seq<char> { self@ } }
+impl PathLike for String { open spec fn chars(&self) -> Seq<char> { self@ } }
+
